@@ -14,7 +14,7 @@ for d in $V/selftest/mutants/$pat/ $V/seeded/$pat/; do
   scratch=$(mktemp -d /tmp/govc-selftest.XXXXXX)
   rsync -a --exclude .git /repo/ $scratch/
   if ! (cd $scratch && patch -p1 -s < $d/patch.diff); then echo "SELFTEST $name: patch does not apply"; bad=$((bad+1)); rm -rf $scratch; continue; fi
-  out=$($V/bin/govc check -p $prop -repo $scratch -verif $V -noevidence 2>&1); code=$?
+  out=$(${GOVC_BIN:-$V/bin/govc} check -p $prop -repo $scratch -verif $V -noevidence 2>&1); code=$?
   rm -rf $scratch
   if [ "$expect" = violation ]; then
     if [ $code -eq 1 ] && echo "$out" | grep -q "^VIOLATION property=$prop"; then echo "SELFTEST $name: caught ($(echo "$out" | grep -c '^VIOLATION') obligations, first: $(echo "$out" | grep '^VIOLATION' | head -1 | sed 's/.*obligation=//'))"; ok=$((ok+1));
